@@ -10,12 +10,40 @@ MANIFEST = {
             "displacement and no bit outside the field changes; refused => no field content designates it. The model is tied to "
             "CodeWriterUtils::encode_offset32/64 and write_offset by running both on boundary, random and bulk-exhaustive inputs; the Lean "
             "monitor (the theorem's predicate) judges every answer of the real code.",
-    "note": "Trusted: Lean kernel + bv_decide certificate axioms; Spec/Offset.lean as the meaning of a displacement field; gen_formats.py; "
-            "the harness/driver diff. Thumb/A32 formats are modelled, not proved (no compiled backend uses them).",
+    "note": "Trusted: Lean kernel + bv_decide certificate axioms; Spec/Offset.lean (incl. the A32/T32 decoders written from the Arm ARM) and "
+            "Spec/A64Imm.lean (DecodeBitMasks, VFPExpandImm, move-wide, BFM/SBFM/UBFM pseudo-code, alias rules) as the meaning of the fields; "
+            "gen_formats.py; the harness/driver diff. Also proved: signed/unsigned codecs for EVERY (bits, shift, discard) that fits the value "
+            "word (symbolic parameters, Props/C17Generic.lean); the Thumb/A32 split formats incl. encode_aarch32_imm (one canonical geometry per "
+            "OffsetType; the model follows fixes/C17-1.patch - on the pinned tree kThumb32_B/BLX/BCond store J1 at bit 14 and B<c>.W computes "
+            "J1/J2 wrongly: known finding); the AArch64 assembler's direct path EmitOp_DispImm = the patched path for all displacements; "
+            "bit-field aliases lsb,width -> immr,imms against executed BFM semantics; encode_lmh.",
 }
-MODS = ["AsmjitVerif.Props.C17", "AsmjitVerif.Props.C17A64"]
-TYPECODE = {"signed": 0, "unsigned": 1, "a64Adr": 2, "a64Adrp": 3}
+MODS = ["AsmjitVerif.Props.C17", "AsmjitVerif.Props.C17A64", "AsmjitVerif.Props.C17Generic", "AsmjitVerif.Props.C17Arm32",
+        "AsmjitVerif.Props.C17Asm", "AsmjitVerif.Props.C17Bitfield"]
+TYPECODE = {"signed": 0, "unsigned": 1, "a64Adr": 2, "a64Adrp": 3, "thumb32Adr": 4, "thumb32Blx": 5, "thumb32B": 6, "thumb32BCond": 7,
+            "a32Adr": 8, "a32U23Signed": 9, "a32U23Split": 10, "a32_1To24": 11}
 M64 = (1 << 64) - 1
+# the Thumb / A32 formats proved in Props/C17Arm32.lean: (type, size, shift, bits, discard)
+ARM32 = [("thumb32Adr", 4, 0, 12, 0), ("thumb32B", 4, 0, 24, 1), ("thumb32Blx", 4, 0, 23, 2), ("thumb32BCond", 4, 0, 20, 1),
+         ("a32Adr", 4, 0, 32, 0), ("a32U23Signed", 4, 0, 12, 0), ("a32U23Signed", 4, 0, 8, 2), ("a32U23Split", 4, 0, 8, 0),
+         ("a32_1To24", 4, 0, 25, 1)]
+SIGNMAG = ("thumb32Adr", "a32Adr", "a32U23Signed", "a32U23Split")     # OffsetFormat::has_sign_bit()
+THUMB_BRANCH = ("thumb32Blx", "thumb32B", "thumb32BCond")             # defect of fixes/C17-1.patch
+KEY_THUMB = "codec:thumb32-branch-j-bits"
+KEY_UB_ROR0 = "ub:a32adr-ror0"
+KEY_UB_MIN = "ub:signbit-int64min"
+DIRECT = {"b": ("signed", 4, 0, 26, 2), "bl": ("signed", 4, 0, 26, 2), "beq": ("signed", 4, 5, 19, 2), "cbz": ("signed", 4, 5, 19, 2),
+          "tbz": ("signed", 4, 5, 14, 2), "adr": ("a64Adr", 4, 5, 21, 0), "adrp": ("a64Adrp", 4, 5, 21, 12)}
+
+
+def field_mask(f):
+    t, sz, shift, bits, dis = f
+    fixed = {"a64Adr": 0x60FFFFE0, "a64Adrp": 0x60FFFFE0, "thumb32Adr": 0x04A070FF, "thumb32Blx": 0x07FF2FFF, "thumb32B": 0x07FF2FFF,
+             "thumb32BCond": 0x043F2FFF, "a32Adr": 0x00C00FFF, "a32U23Split": 0x00800F0F, "a32_1To24": 0x01FFFFFF}
+    if t in fixed:
+        return fixed[t]
+    m = ((1 << bits) - 1) << shift
+    return m | 0x00800000 if t == "a32U23Signed" else m
 
 
 def fmt_words(f, voff=0):
@@ -51,15 +79,46 @@ def boundary_offsets(f, rng, nrand):
     return sorted(vals)
 
 
-def gen_ops(fmts, rng, tier):
+def ror32(v, n):
+    n %= 32
+    return ((v >> n) | (v << (32 - n))) & 0xFFFFFFFF
+
+
+def a32_imm_offsets(rng, tier):
+    """A32 modified immediates: every rotation of structured 8-bit values, their 1-bit neighbours (mostly not encodable),
+    values that make encode_aarch32_imm rotate by 16 first, and the `ror(v, 0)` class."""
+    vals = set()
+    imm8s = [0, 1, 2, 3, 0x7F, 0x80, 0x81, 0xFF, 0xAA, 0x55, 0xC3] + [rng.getrandbits(8) for _ in range(6 if tier == "quick" else 245)]
+    for i8 in imm8s:
+        for rot in range(16):
+            v = ror32(i8, 2 * rot)
+            vals.add(v)
+            for b in range(0, 32, 1 if tier != "quick" else 3):
+                vals.add(v ^ (1 << b))
+            vals.add(ror32(i8, 2 * rot + 1))          # odd rotation
+    vals |= {0x10001, 0x01000001, 0x00030000 | 1, 0x101, 0x102, 0xFF00FF, 0xFFFFFFFF, 0x100000000, 0x1FE, 0x3FC, 0xFF000000, 0xF000000F}
+    out = set()
+    for v in vals:
+        out.add(v & M64)
+        out.add(-v & M64)
+    return sorted(out)
+
+
+def gen_ops(fmts, rng, tier, light=()):
+    """`light`: formats that get the quick-tier amount of random offsets and exhaustive ranges only up to 16 bits even in the
+    thorough tier (the random generic geometries: there are hundreds of them)"""
     ops = []
-    nrand = 600 if tier == "quick" else 20000
+    light = set(light)
     for f in fmts:
         t, sz, shift, bits, dis = f
+        nrand = 600 if (tier == "quick" or f in light) else 20000
         for off in boundary_offsets(f, rng, nrand):
             ops.append("enc %s %x" % (fmt_words(f), off))
+        if t == "a32Adr":
+            for off in a32_imm_offsets(rng, tier):
+                ops.append("enc %s %x" % (fmt_words(f), off))
         # exhaustive over the field (+ a band outside it) in bulk mode
-        maxbits = 16 if tier == "quick" else 26
+        maxbits = 16 if (tier == "quick" or f in light) else (21 if t in TYPECODE and TYPECODE[t] >= 4 else 26)
         if bits <= maxbits:
             unit = 1 << dis
             total = (1 << bits) * 2          # whole signed/unsigned range and as much again outside
@@ -70,7 +129,7 @@ def gen_ops(fmts, rng, tier):
             if dis:
                 ops.append("range %s %x %d %x" % (fmt_words(f), (lo + 1) & M64, 1 << 12, 1))
         # write_offset on buffers whose field is zero, at several value offsets
-        for _ in range(40 if tier == "quick" else 1500):
+        for _ in range(40 if (tier == "quick" or f in light) else 1500):
             voff = rng.randrange(0, 4)
             pos = rng.randrange(0, 3)
             size = pos + voff + sz + rng.randrange(0, 3)
@@ -78,17 +137,70 @@ def gen_ops(fmts, rng, tier):
                 size = max(0, pos + voff + sz - rng.randrange(1, 3))   # region does not fit: both sides refuse
             buf = bytearray(rng.getrandbits(8) for _ in range(size))
             # clear the field bits
-            mask = 0x60FFFFE0 if t in ("a64Adr", "a64Adrp") else ((1 << bits) - 1) << shift
+            mask = field_mask(f)
             p = pos + voff
             if p + sz <= size:
                 word = int.from_bytes(buf[p:p + sz], "little") & ~mask
                 buf[p:p + sz] = (word & ((1 << (8 * sz)) - 1)).to_bytes(sz, "little")
             if rng.random() < 0.75:   # mostly representable displacements, so that most writes succeed
                 unit = 1 << dis
-                off = (rng.randrange(0, 1 << bits) if t == "unsigned" else rng.randrange(-(1 << (bits - 1)), 1 << (bits - 1))) * unit & M64
+                if t == "unsigned":
+                    off = rng.randrange(0, 1 << bits)
+                elif t == "a32Adr":
+                    off = rng.choice((1, -1)) * ror32(rng.getrandbits(8), 2 * rng.randrange(16))
+                elif t in SIGNMAG:
+                    off = rng.randrange(-(1 << bits) + 1, 1 << bits)
+                else:
+                    off = rng.randrange(-(1 << (bits - 1)), 1 << (bits - 1))
+                off = off * unit & M64
             else:
                 off = rng.choice(boundary_offsets(f, rng, 8))
             ops.append("write %s %x %d %s" % (fmt_words(f, voff), off, pos, buf.hex() or "-"))
+    return ops
+
+
+def gen_generic_formats(rng, tier):
+    """signed / unsigned geometries NO backend uses: the parametric theorems (Props/C17Generic.lean) claim them all"""
+    out = set()
+    for _ in range(40 if tier == "quick" else 400):
+        t = rng.choice(("signed", "unsigned"))
+        sz = rng.choice((1, 2, 4, 8))
+        bits = rng.randrange(1, 8 * sz + 1)
+        shift = rng.randrange(0, 8 * sz - bits + 1)
+        dis = rng.choice((0, 0, 1, 2, 3, 4, 12, rng.randrange(0, 33)))
+        out.add((t, sz, shift, bits, dis))
+    # the corners
+    for sz in (1, 2, 4, 8):
+        for t in ("signed", "unsigned"):
+            out |= {(t, sz, 0, 1, 0), (t, sz, 8 * sz - 1, 1, 32), (t, sz, 0, 8 * sz, 32), (t, sz, 1, 8 * sz - 1, 31)}
+    return sorted(out)
+
+
+def gen_direct_ops(rng, tier):
+    ops = []
+    for kind, f in sorted(DIRECT.items()):
+        for off in boundary_offsets(f, rng, 800 if tier == "quick" else 20000):
+            ops.append("direct %s %x" % (kind, off))
+    return ops
+
+
+def gen_bf_ops(rng, tier):
+    ops = []
+    aliases = ("bfc", "bfi", "sbfiz", "ubfiz", "bfxil", "sbfx", "ubfx")
+    raws = ("bfm", "sbfm", "ubfm")
+    big = [1 << 32, (1 << 32) + 1, (1 << 32) + 31, 1 << 63, M64, M64 - 31, (1 << 64) - 64, 0x100000020, 0xFFFFFFFF, 0x80000000]
+    for x, size in ((0, 32), (1, 64)):
+        for kind in aliases + raws:
+            step = 1 if (tier != "quick" or kind in ("bfi", "sbfx")) else 3
+            for a in list(range(0, size + 2)):
+                for b in range(0, size + 3):
+                    if step > 1 and (a * 7 + b) % step and not (a + b in (size - 1, size, size + 1) or a in (0, size - 1, size) or b in (0, 1, size)):
+                        continue
+                    ops.append("bf %s %d %x %x" % (kind, x, a, b))
+            for v in big:
+                for w_ in (0, 1, size, v):
+                    ops.append("bf %s %d %x %x" % (kind, x, v, w_))
+                    ops.append("bf %s %d %x %x" % (kind, x, w_, v))
     return ops
 
 
@@ -214,7 +326,7 @@ def monitor_line(op, ans):
     w = op.split()
     if w[0] == "enc":
         return "mon " + op[4:] + " " + ans
-    if w[0] in ("logimm", "fp", "bytemask", "addsub", "movseq"):
+    if w[0] in ("logimm", "fp", "bytemask", "addsub", "movseq", "direct", "bf", "lmh"):
         return "mon_" + op + " " + ans
     return None
 
@@ -229,8 +341,13 @@ def generate():
 def run(res):
     rng = vlib.rng_for(res.seed, PID)
     res.assumptions += ["Support::loadu/storeu little-endian = byte list semantics",
-                        "has_sign_bit formats (Thumb/A32) are modelled but not proved: no compiled backend constructs them",
-                        "write_offset has no bounds check in C++; harness and model refuse regions outside the buffer"]
+                        "Thumb/A32 formats: no compiled backend constructs them; one canonical geometry per OffsetType is proved "
+                        "(A32 ADR with bit_count 32); a T32 instruction word is hw1:hw2 as in the Arm ARM diagrams; the model follows "
+                        "the code repaired by fixes/C17-1.patch",
+                        "has_sign_bit formats: INT64_MIN is refused by the model (signed negation overflow in the pinned C++, fixes/C17-2.patch)",
+                        "write_offset has no bounds check in C++; harness and model refuse regions outside the buffer",
+                        "direct path: exercised through absolute targets with a base address (EmitOp_DispImm is shared with bound labels)",
+                        "bit-field aliases: spec = Arm ARM BFM/SBFM/UBFM pseudo-code + alias descriptions (Spec/A64Imm.lean)"]
     broken = []     # descriptions of proof obligations / correspondences that no longer check
 
     # -- L2a translator: formats constructed by the current sources ---------------------------------
@@ -252,14 +369,39 @@ def run(res):
         res.violation("Lean driver does not build", {"log": out[-3000:]}, found_input=False, key="driver")
         return
 
+    if ok and res.tier == "thorough":
+        # independent re-check of the compiled proofs: kernel replay of the .olean files (incl. the helper lemma modules)
+        replay_mods = MODS + ["AsmjitVerif.Lemmas.OffsetGeneric", "AsmjitVerif.Lemmas.OffsetGeneric64", "AsmjitVerif.Lemmas.OffsetArm32",
+                              "AsmjitVerif.Lemmas.A64Logical", "AsmjitVerif.Lemmas.Bytes"]
+        with vlib.Lock("lake"):
+            for mod in replay_mods:
+                p = vlib.sh(["lake", "env", "leanchecker", mod], cwd=vlib.LEAN, timeout=3600)
+                if p.returncode != 0:
+                    broken.append("leanchecker rejects %s: %s" % (mod, (p.stdout + p.stderr)[-400:]))
+        res.coverage["leanchecker"] = "replayed %s" % ", ".join(replay_mods) if not any("leanchecker" in b for b in broken) else "FAILED"
+        res.coverage["checker_cmd"] += " && lake env leanchecker " + " ".join(replay_mods)
+
     # -- L2b correspondence + L3 monitor -----------------------------------------------------------
     h = vlib.build_harness("c17")
     proved = [("signed", s, 0, 8 * s, 0) for s in (1, 2, 4, 8)] + [("unsigned", s, 0, 8 * s, 0) for s in (1, 2, 4, 8)] + \
              [("a64Adr", 4, 5, 21, 0), ("a64Adrp", 4, 5, 21, 12), ("signed", 4, 5, 19, 2), ("signed", 4, 0, 26, 2), ("signed", 4, 5, 14, 2)]
-    allf = sorted(set(fmts) | set(proved))
+    generic = gen_generic_formats(rng, res.tier)
+    allf = sorted(set(fmts) | set(proved) | set(ARM32) | set(generic))
     allf = [f for f in allf if f[0] in TYPECODE]
-    ops = gen_ops(allf, rng, res.tier) + gen_a64_ops(rng, res.tier)
-    impl, rc, err = vlib.run_lines([str(h)], ops)
+    res.coverage["formats_exercised"] = {"in_use_or_proved": len(set(fmts) | set(proved)), "thumb_a32": len(ARM32), "generic_geometries": len(generic)}
+    ops = gen_ops(allf, rng, res.tier, light=set(generic) - set(fmts) - set(proved)) + gen_a64_ops(rng, res.tier) + gen_direct_ops(rng, res.tier) + gen_bf_ops(rng, res.tier)
+    # undefined behaviour of the pinned tree (fixes/C17-2.patch): probe each class in its own process; the main run skips
+    # those inputs ("skip-ub") until the tree is repaired
+    ub_found = []
+    for key, probe, what in ((KEY_UB_ROR0, "enc 8 4 0 32 0 0 10001", "encode_aarch32_imm(0x10001) calls Support::ror(v, 0): shift by the type width"),
+                             (KEY_UB_MIN, "enc 9 4 0 12 0 0 8000000000000000", "encode_offset32 negates INT64_MIN for a sign-bit format")):
+        pout, prc, perr = vlib.run_lines([str(h)], [probe], env={"VH_C17_UB": "1"})
+        if prc != 0:
+            first = [l for l in perr.splitlines() if "runtime error" in l][:1]
+            ub_found.append((key, probe, what, (first or [perr[-200:]])[0]))
+    henv = {} if ub_found else {"VH_C17_UB": "1"}
+    res.coverage["ub_inputs_skipped"] = bool(ub_found)
+    impl, rc, err = vlib.run_lines([str(h)], ops, env=henv)
     if rc != 0:
         i, tail = vlib.locate_abort([str(h)], ops)
         first = [l for l in tail.splitlines() if "runtime error" in l or "ERROR: AddressSanitizer" in l][:1]
@@ -271,9 +413,17 @@ def run(res):
         res.violation("driver/harness protocol failure rc=%d/%d lines %d/%d/%d %s" % (rc, rc2, len(ops), len(impl), len(model), err2[-500:]),
                       {}, found_input=False, key="protocol")
         return
+    # inputs the harness skipped because the pinned tree has undefined behaviour there: take the model's answer
+    skipped = [i for i, r in enumerate(impl) if r == "skip-ub"]
+    for i in skipped:
+        impl[i] = model[i]
+    res.coverage["ub_skipped_ops"] = len(skipped)
     # monitor: the property predicate on every answer of the implementation
     mon_ops, idx = [], []
+    skipset = set(skipped)
     for i, (o, r) in enumerate(zip(ops, impl)):
+        if i in skipset:
+            continue
         ml = monitor_line(o, r)
         if ml:
             mon_ops.append(ml)
@@ -294,10 +444,12 @@ def run(res):
             for j in range(cnt):
                 extra.append("enc %s %x" % (" ".join(w[1:7]), (lo + j * st) & M64))
     if extra:
-        ei, _, _ = vlib.run_lines([str(h)], extra)
+        ei, _, _ = vlib.run_lines([str(h)], extra, env=henv)
         em, _, _ = vlib.run_model("C17", extra)
         emon, _, _ = vlib.run_model("C17", ["mon " + o[4:] + " " + r for o, r in zip(extra, ei)])
         for o, a, b, m in zip(extra, ei, em, emon):
+            if a == "skip-ub":
+                continue
             if m != "good":
                 bad.append((o, m))
     nontriv = len({o for o, r in zip(ops, impl) if r.startswith("ok") or r.startswith("hash")})
@@ -315,18 +467,36 @@ def run(res):
     res.add_samples([{"op": ops[i], "impl": impl[i], "model": model[i]} for i in (0, len(ops) // 3, len(ops) // 2, len(ops) - 1)])
     res.coverage["traces_validated_against_impl"] = len(ops)
 
-    if bad:
-        i, m = bad[0]
-        op = ops[i] if isinstance(i, int) else i
-        res.violation("codec not exact on the real code: %s -> monitor says %s (%d such inputs)" % (op, m, len(bad)),
-                      {"ops": [op], "monitor": m, "how": "echo '<op>' | .build/<tree>/asan/h_c17 ; vdriver C17 mon"}, True, key="codec:" + op.split()[0])
-    elif diffs:
+    def op_of(i):
+        return ops[i] if isinstance(i, int) else i
+
+    def is_thumb_branch(op):
+        w = op.split()
+        return w[0] in ("enc", "range", "write") and len(w) > 1 and w[1] in (str(TYPECODE[t]) for t in THUMB_BRANCH)
+
+    def key_of(op):
+        return KEY_THUMB if is_thumb_branch(op) else "codec:" + op.split()[0]
+
+    for key, probe, what, line in ub_found:
+        res.violation("undefined behaviour in the real code: %s (%s); witness `%s` with VH_C17_UB=1" % (what, line, probe),
+                      {"ops": [probe], "env": {"VH_C17_UB": "1"}}, True, key=key)
+    by_key = {}
+    for i, m in bad:
+        by_key.setdefault(key_of(op_of(i)), []).append((op_of(i), m))
+    for key, items in sorted(by_key.items()):
+        op, m = items[0]
+        res.violation("codec not exact on the real code: %s -> monitor says %s (%d such inputs)" % (op, m, len(items)),
+                      {"ops": [op], "monitor": m, "how": "echo '<op>' | .build/<tree>/asan/h_c17 ; vdriver C17 mon"}, True, key=key)
+    # correspondence differences that the findings above do not explain
+    explained = KEY_THUMB in by_key
+    diffs = [i for i in diffs if not (explained and is_thumb_branch(ops[i]))]
+    if diffs and not [k for k in by_key if k != KEY_THUMB]:
         i = diffs[0]
         res.violation("correspondence model/implementation differs at %r: impl=%s model=%s (%d differing ops); the property predicate "
                       "holds on every explored input" % (ops[i], impl[i], model[i], len(diffs)),
                       {"ops": [ops[i]], "impl": impl[i], "model": model[i], "unchecked": "correspondence Model/Offset.lean ~ codewriter.cpp"},
                       False, key="corr")
-    elif broken:
+    if broken:
         res.violation("proof obligation no longer checks: " + " | ".join(broken)[:1500],
                       {"unchecked": broken}, False, key="obligation")
 
@@ -334,7 +504,9 @@ def run(res):
 def replay(data):
     ops = data["replay"].get("ops", [])
     h = vlib.build_harness("c17")
-    impl, rc, err = vlib.run_lines([str(h)], ops)
+    impl, rc, err = vlib.run_lines([str(h)], ops, env=data["replay"].get("env"))
     for o, r in zip(ops, impl):
         print(o, "->", r)
+    if rc != 0:
+        print(err[-1500:])
     return 0
